@@ -3,7 +3,7 @@ C03 — for a fixed total expansion the length of the progression grows with the
 if `a^(m-1) = T = b^m` (ratios blockMesh uses for `m` and `m+1` cells) then
 `1 + a + … + a^(m-1) < 1 + b + … + b^m`.  Hence the count of the size+total pairs is unique.
 -/
-import CBV.Lemmas.C03Geom
+import CBV.Lemmas.C03Calc
 import Mathlib.Algebra.BigOperators.Group.Finset.Basic
 import Mathlib.Algebra.Order.BigOperators.Group.Finset
 import Mathlib.Algebra.BigOperators.Ring.Finset
@@ -184,5 +184,69 @@ theorem sizeTotalStrict_unique {T L s : ℚ} {ρ : ℕ → ℚ} {hi n n' : ℕ} 
     have := mul_le_mul_of_nonneg_left hle (le_of_lt hs)
     have := a2 (by omega)
     linarith
+
+/-- non-strict form (what the validator admits at tolerance 0) -/
+def SizeTotalWeak (L s : ℚ) (ρ : ℕ → ℚ) (n : ℕ) : Prop :=
+  1 ≤ n ∧ (2 ≤ n → s * totalLen ρ (n - 1) ≤ L) ∧ L ≤ s * totalLen ρ n
+
+theorem totalLen_one (ρ : ℕ → ℚ) : totalLen ρ 1 = 1 := by simp [totalLen, geomSum]
+
+/-- it determines the count up to the tie at an exact-integer solution -/
+theorem sizeTotalWeak_near_unique {T L s : ℚ} {ρ : ℕ → ℚ} {hi n n' : ℕ} (hf : IsRatioFamily T ρ hi) (hs : 0 < s)
+    (hn : SizeTotalWeak L s ρ n) (hn' : SizeTotalWeak L s ρ n') (h1 : n ≤ hi) (h2 : n' ≤ hi) :
+    n = n' ∨ (n' = n + 1 ∧ L = s * totalLen ρ n) ∨ (n = n' + 1 ∧ L = s * totalLen ρ n') := by
+  obtain ⟨a1, a2, a3⟩ := hn
+  obtain ⟨b1, b2, b3⟩ := hn'
+  rcases Nat.lt_trichotomy n n' with h | h | h
+  · right; left
+    have hle := totalLen_le hf a1 (show n ≤ n' - 1 by omega) (by omega)
+    have hle' := mul_le_mul_of_nonneg_left hle (le_of_lt hs)
+    have hb := b2 (by omega)
+    have hL : L = s * totalLen ρ n := le_antisymm a3 (by linarith)
+    refine ⟨?_, hL⟩
+    by_contra hne
+    have hlt := totalLen_lt hf a1 (show n < n' - 1 by omega) (by omega)
+    have := mul_lt_mul_of_pos_left hlt hs
+    linarith
+  · left; exact h
+  · right; right
+    have hle := totalLen_le hf b1 (show n' ≤ n - 1 by omega) (by omega)
+    have hle' := mul_le_mul_of_nonneg_left hle (le_of_lt hs)
+    have ha := a2 (by omega)
+    have hL : L = s * totalLen ρ n' := le_antisymm b3 (by linarith)
+    refine ⟨?_, hL⟩
+    by_contra hne
+    have hlt := totalLen_lt hf b1 (show n' < n - 1 by omega) (by omega)
+    have := mul_lt_mul_of_pos_left hlt hs
+    linarith
+
+/-- what the pair theorems deliver (`SizeTotalSpec`, existential witnesses) is the weak specification for any
+    family of ratios, because a positive root is unique -/
+theorem sizeTotalWeak_of_spec {T L s : ℚ} {ρ : ℕ → ℚ} {hi n : ℕ} (hf : IsRatioFamily T ρ hi) (hn1 : 1 ≤ n)
+    (hn : n ≤ hi) (h : SizeTotalSpec L s T n) : SizeTotalWeak L s ρ n := by
+  obtain ⟨h1, h2, h3, h4⟩ := h
+  refine ⟨hn1, ?_, ?_⟩
+  · intro h2n
+    rcases Nat.eq_or_lt_of_le h2n with he | hlt
+    · rw [← he]; simp only [Nat.add_one_sub_one, totalLen_one, mul_one]; exact h3 he.symm
+    · obtain ⟨w, hw, hpw, hle⟩ := h4 (by omega)
+      obtain ⟨hr, hrp⟩ := hf (n - 1) (by omega) (by omega)
+      have : w = ρ (n - 1) := ratio_unique hw hr (show n - 2 ≠ 0 by omega)
+        (by rw [hpw, show n - 2 = n - 1 - 1 by omega, hrp])
+      subst this
+      have hg := geomSum_pos (le_of_lt hw) (show 0 < n - 1 by omega)
+      unfold firstCell at hle
+      rw [le_div_iff₀ hg] at hle
+      exact hle
+  · rcases Nat.eq_or_lt_of_le hn1 with he | hlt
+    · rw [← he, totalLen_one, mul_one]; exact h1 he.symm
+    · obtain ⟨w, hw, hpw, hle⟩ := h2 (by omega)
+      obtain ⟨hr, hrp⟩ := hf n (by omega) hn
+      have : w = ρ n := ratio_unique hw hr (show n - 1 ≠ 0 by omega) (by rw [hpw, hrp])
+      subst this
+      have hg := geomSum_pos (le_of_lt hw) (show 0 < n by omega)
+      unfold firstCell at hle
+      rw [div_le_iff₀ hg] at hle
+      exact hle
 
 end CBV.C03
